@@ -237,12 +237,12 @@ prop(
 
 prop(
     "C11",
-    ["LolHtml.Thm.C11", "LolHtml.Thm.C11_General", "LolHtml.Thm.C11_General_End", "LolHtml.Thm.Full"],
+    ["LolHtml.Thm.C11", "LolHtml.Thm.C11_General", "LolHtml.Thm.C11_General_End", "LolHtml.Thm.Full", "LolHtml.Thm.Full16"],
     [{"lane": "fault", "n_quick": 4000, "n_thorough": 100000},
      {"lane": "full", "n_quick": 2000, "n_thorough": 40000},
      {"lane": "proto", "n_quick": 5000, "n_thorough": 100000, "impl_only": True}],
     LEX_RULE + "; lane fault = lane lex plus a handler failure injected at token index 1..8, graceful flags, memory limit and preallocation sweeps (model vs real TransformStream); lane proto (implementation only): public HtmlRewriter in all 36 encodings with end / bail-out content, token mutations with empty strings, a failure injected at handler invocation index 1..11 or by memory limit, graceful flags on/off, preallocation sizes, cuts anywhere: byte preservation and bail-out handler count",
-    ["the exact sink CONTENT (written.take j ++ handler output ++ written.drop j) is proved for observing controllers (handlers that inspect and may FAIL at any invocation but do not mutate); for arbitrary controllers (rewriting, removing, failing) C11_bailout_general proves the shape: log at failure ++ bail-out handler output ++ the unemitted rest of the input from remaining_content_start, unmodified; the end() variant is C11_bailout_general_end (an end-handler failure is not guarded by should_bail_out_for: no bail-out handler runs, as coded)",
+    ["the exact sink CONTENT (written.take j ++ handler output ++ written.drop j) is proved for observing controllers (handlers that inspect and may FAIL at any invocation but do not mutate); for arbitrary controllers (rewriting, removing, failing) C11_bailout_general proves the shape: log at failure ++ bail-out handler output ++ the unemitted rest of the input from remaining_content_start, unmodified; the end() variant is C11_bailout_general_end (an end-handler failure is not guarded by should_bail_out_for: no bail-out handler runs, as coded); for the REAL controller model C11_bailout_general_real (Thm/Full16) gives the exact sink log at a failing write whose error is not the handler error (e.g. the memory limit), through Full_real_eq_clean_of_no_handler (real and cleaned write* runs coincide when no write returns the handler error)",
      "an end-handler failure happens after every received byte was emitted; the bail-out handlers are not run then (as coded and as the repository's own test expects)",
      MODEL_SCOPE],
     level_text=("Lean 4 theorem C11_bailout_write: for every table, flag schedule, chunking, memory limit and preallocation, "
@@ -345,7 +345,7 @@ prop(
 
 prop(
     "C15",
-    ["LolHtml.Thm.C15_Core", "LolHtml.Thm.C15_Full", "LolHtml.Thm.C15_Linear", "LolHtml.Thm.Full", "LolHtml.Thm.Full3", "LolHtml.Thm.Full4", "LolHtml.Thm.Full5", "LolHtml.Thm.FullIds", "LolHtml.Thm.FullPay", "LolHtml.Thm.C15_Args", "LolHtml.Thm.Full6", "LolHtml.Thm.Full7", "LolHtml.Thm.Full8", "LolHtml.Thm.Full9", "LolHtml.Thm.Full10", "LolHtml.Thm.Full11", "LolHtml.Thm.Full12", "LolHtml.Thm.FullGuardW", "LolHtml.Thm.FullGuardX", "LolHtml.Thm.Full13", "LolHtml.Thm.Full14", "LolHtml.Thm.Full15"],
+    ["LolHtml.Thm.C15_Core", "LolHtml.Thm.C15_Full", "LolHtml.Thm.C15_Linear", "LolHtml.Thm.Full", "LolHtml.Thm.Full3", "LolHtml.Thm.Full4", "LolHtml.Thm.Full5", "LolHtml.Thm.FullIds", "LolHtml.Thm.FullPay", "LolHtml.Thm.C15_Args", "LolHtml.Thm.Full6", "LolHtml.Thm.Full7", "LolHtml.Thm.Full8", "LolHtml.Thm.Full9", "LolHtml.Thm.Full10", "LolHtml.Thm.Full11", "LolHtml.Thm.Full12", "LolHtml.Thm.FullGuardW", "LolHtml.Thm.FullGuardX", "LolHtml.Thm.Full13", "LolHtml.Thm.Full14", "LolHtml.Thm.Full15", "LolHtml.Thm.Full16"],
     [{"lane": "lex", "n_quick": 4000, "n_thorough": 200000},
      {"lane": "fault", "n_quick": 3000, "n_thorough": 60000},
      {"lane": "full", "n_quick": 2000, "n_thorough": 40000},
